@@ -213,7 +213,7 @@ def run_check(check_id, tier, collect=False, plan_override=None):
     # ---- generated search
     workdir = tempfile.mkdtemp(prefix="vcheck_%s_" % check_id, dir=os.path.join(BUILD_ROOT))
     workers = []
-    extra = ["--collect"] if collect else []
+    extra = ["--collect", "--fork-each"] if collect else (["--fork-each"] if getattr(mod, "FORK_EACH", False) else [])
     for p in plan:
         w = p.get("workers", NCPU)
         per = max(1, p["cases"] // w)
@@ -304,9 +304,11 @@ def run_check(check_id, tier, collect=False, plan_override=None):
             known_lines.append(line)
             print(line)
     if collect:
+        with open(os.path.join(BUILD_ROOT, "collect_%s.json" % check_id), "w") as f:
+            json.dump(buckets, f, indent=1, default=repr)
         print("---- buckets (collect mode)")
         for k, b in sorted(buckets.items(), key=lambda kv: -kv[1]["count"]):
-            print("BUCKET %s count=%d\n   case=%s\n   violation=%s" % (k, b["count"], canon(b["first"])[:1500], json.dumps(b["violation"], default=repr)[:1500]))
+            print("BUCKET %s count=%d\n   case=%s\n   violation=%s" % (k, b["count"], canon(b["first"])[:int(os.environ.get("VERIF_SHOW", "700"))], json.dumps(b["violation"], default=repr)[:int(os.environ.get("VERIF_SHOW", "700"))]))
 
     if harness_errors:
         status = 2
@@ -365,7 +367,13 @@ def _handle_death(w, mod, known, check_id, verif_seed, violations, crash_known, 
         w.done += res.get("evaluations", 0)
     case = w.slot_case()
     tail = w.stderr_tail()
-    vio = {"bucket": kind, "message": "worker %s in native code (flavour %s)" % ("hung" if kind == "hang" else "died", w.flavour),
+    label = ""
+    if case is not None and hasattr(mod, "case_label"):
+        try:
+            label = mod.case_label(case)
+        except Exception:  # noqa: B902
+            label = ""
+    vio = {"bucket": kind + ":" + label, "message": "worker %s in native code (flavour %s)" % ("hung" if kind == "hang" else "died", w.flavour),
            "clause": "C12-" + kind, "stderr_tail": tail[-3000:], "expected": None, "observed": None}
     if case is None:
         # died outside a case: harness problem
